@@ -11,7 +11,11 @@
 (***************************************************************************)
 EXTENDS MemAttrs, Json, IOUtils
 
-CONSTANT Advisory      \* TRUE: also demand the advisory maximality of the default nodeset (never used for verdicts)
+CONSTANTS Advisory,    \* TRUE: also demand the advisory maximality of the default nodeset (never used for verdicts)
+          Diag         \* TRUE: print the first logged query that breaks its relation (diagnosis of a rejected replay)
+
+\* a checked item: with Diag, the failing one is printed
+Chk(tag, item, ok) == ok \/ (Diag /\ PrintT("FAILED " \o tag \o ": " \o ToString(item)) /\ FALSE)
 
 T == ndJsonDeserialize(IOEnv.TRACE)
 
@@ -69,15 +73,15 @@ ObsAttrOK(St, ar) ==
                     /\ Len(ar.bt) = ncand + 1
                     /\ Len(ar.bi) = ntg
      /\ \A i \in DOMAIN ar.gv :
-          LET g == ar.gv[i] IN HasObj(St.topo, g[1]) /\ GetValueOK(St, ai, a, g[1], IniOf(g[2]), g[3], g[4], g[5], g[6])
+          LET g == ar.gv[i] IN Chk("get_value " \o a, g, HasObj(St.topo, g[1]) /\ GetValueOK(St, ai, a, g[1], IniOf(g[2]), g[3], g[4], g[5], g[6]))
      /\ \A i \in DOMAIN ar.gt :
-          LET g == ar.gt[i] IN GetTargetsOK(St, ai, a, IniOf(g[1]), g[2], g[3], g[4], g[5], g[6])
+          LET g == ar.gt[i] IN Chk("get_targets " \o a, g, GetTargetsOK(St, ai, a, IniOf(g[1]), g[2], g[3], g[4], g[5], g[6]))
      /\ \A i \in DOMAIN ar.gi :
-          LET g == ar.gi[i] IN HasObj(St.topo, g[1]) /\ GetInitiatorsOK(St, ai, a, g[1], g[2], g[3], g[4], g[5], FilledInis(g[6]))
+          LET g == ar.gi[i] IN Chk("get_initiators " \o a, g, HasObj(St.topo, g[1]) /\ GetInitiatorsOK(St, ai, a, g[1], g[2], g[3], g[4], g[5], FilledInis(g[6])))
      /\ \A i \in DOMAIN ar.bt :
-          LET g == ar.bt[i] IN BestTargetOK(St, ai, a, IniOf(g[1]), g[2], g[3], g[4], g[5], g[6])
+          LET g == ar.bt[i] IN Chk("get_best_target " \o a, g, BestTargetOK(St, ai, a, IniOf(g[1]), g[2], g[3], g[4], g[5], g[6]))
      /\ \A i \in DOMAIN ar.bi :
-          LET g == ar.bi[i] IN HasObj(St.topo, g[1]) /\ BestInitiatorOK(St, ai, a, g[1], g[2], g[3], IniOf(g[4]), g[5])
+          LET g == ar.bi[i] IN Chk("get_best_initiator " \o a, g, HasObj(St.topo, g[1]) /\ BestInitiatorOK(St, ai, a, g[1], g[2], g[3], IniOf(g[4]), g[5]))
      \* every nr_in variant of the enumerations was exercised for every target / candidate
      /\ ncs >= 0 => /\ {IniOf(ar.gt[i][1]) : i \in DOMAIN ar.gt} = {IniOf(ar.bt[i][1]) : i \in DOMAIN ar.bt}
                     /\ {ar.gi[i][1] : i \in DOMAIN ar.gi} = St.topo.nodes \cup St.topo.objs
@@ -220,7 +224,7 @@ TRefresh ==
   /\ UNCHANGED <<S, nos>>
 
 ObsCheck(e) ==
-  /\ ListingOK(e, S.user)
+  /\ Chk("attribute listing", e.al, ListingOK(e, S.user))
   /\ \A k \in DOMAIN e.a : ObsAttrOK(S, e.a[k])
 TObs ==
   /\ Running("Obs")
@@ -232,10 +236,10 @@ LocalCheck(e) ==
   /\ \A i \in DOMAIN e.ln :
        LET g == e.ln[i]   q == IniOf(g[1]) IN
        /\ q.k = "o" => HasObj(S.topo, q.o)
-       /\ LocalNodesOK(S.topo, q, g[2], g[3], g[4], g[5], g[6], g[7])
+       /\ Chk("get_local_numanode_objs", g, LocalNodesOK(S.topo, q, g[2], g[3], g[4], g[5], g[6], g[7]))
   /\ \A i \in DOMAIN e.dn :
        LET g == e.dn[i] IN
-       /\ DefaultNodesetOK(S.topo, nos, g[1], g[2], ToSet(g[4]))
+       /\ Chk("get_default_nodeset", g, DefaultNodesetOK(S.topo, nos, g[1], g[2], ToSet(g[4])))
        /\ (Advisory /\ g[1] = 0 /\ g[2] = 0) => DefaultNodesetMaximal(S.topo, nos, ToSet(g[4]))
 TLocal ==
   /\ Running("Local")
